@@ -457,14 +457,14 @@ func TestVerifC12V2(t *testing.T) {
 
 		renterKey := c12RenterKey2 // key of the new contract
 		hostUK, renterUK := c12HostKey.PublicKey().UnlockKey(), renterKey.PublicKey().UnlockKey()
-		expUH := contractUnlockConditions(hostUK, renterUK).UnlockHash()
+		expUH := c12UC(hostUK, renterUK).UnlockHash()
 		ids := newC12IDs(expUH)
 		fc := ids.build(c.fc)
 		settings := c.cfg.settings2()
 		walletAddr := c12Addr(c.cfg.addr)
 
 		// the existing (locked) contract of renewals
-		exUC := contractUnlockConditions(hostUK, c12RenterKey.PublicKey().UnlockKey())
+		exUC := c12UC(hostUK, c12RenterKey.PublicKey().UnlockKey())
 		exFC := c.ex.clone()
 		existing := types.FileContractRevision{ParentID: types.FileContractID{1, 2, 3}, UnlockConditions: exUC}
 		{
